@@ -53,4 +53,23 @@ def run(run):
                 run.fail('relations(include_unary=%r).tostring()' % unary, s2, render(pc, items, False), [pc.line, r], extra)
             if not items:
                 run.count('empty results')
+            # a second context with the same table and other property labels (statements are about labels)
+            if unary is False and run.evaluations % 3 == 0:
+                from concepts import Context
+                alt = ['q%d' % ((j * 31 + 5) % 211) for j in range(pc.m)]
+                with guard(run, 'relations() of a relabelled copy', [pc.line, r], ans):
+                    twin = Context(pc.objects, alt, pc.bools)
+                    rt = twin.relations()
+                    pos = {p: j for j, p in enumerate(alt)}
+                    for x in rt:
+                        if x.left not in pos or (x.right != '' and x.right not in pos):
+                            run.fail('relations() of a relabelled copy names a property that is not in the context',
+                                     [x.kind, x.left, x.right], ans, [pc.line, r], dict(extra, labels=alt))
+                    got_t = ' '.join('%s:%d:%s:%d' % (x.kind, pos[x.left], pos[x.right] if x.right in pos else '-', x.order) for x in rt) or '-'
+                    text_t = str(rt)
+                if got_t != ans:
+                    run.fail('relations() of a context with the same table and other property labels', got_t, ans, [pc.line, r], dict(extra, labels=alt))
+                want_text = render(type('T', (), {'properties': alt})(), items, True)
+                if text_t != want_text:
+                    run.fail('str(relations()) of a relabelled copy', text_t, want_text, [pc.line, r], dict(extra, labels=alt))
         run.count('contexts')
